@@ -116,6 +116,35 @@ def patched(obj, **attrs):
 
 # ================================================================== travelling wave + scales (driver = small table)
 
+class InPlace(np.ndarray):
+    """object array with numpy's aliasing semantics for augmented assignment.  With a symbolic operand plain numpy defers
+    `a += s' to the operand's reflected method and REBINDS a to a new array, whereas on float arrays the update is in place
+    and visible through every alias (e.g. an attribute caching the array): keep that behaviour in the symbolic run."""
+
+    def _inplace(self, other, op):
+        o = np.broadcast_to(np.asarray(other, dtype=object), self.shape)
+        for idx in np.ndindex(self.shape):
+            self[idx] = op(self[idx], o[idx])
+        return self
+
+    def __iadd__(self, o):
+        return self._inplace(o, lambda a, b: a + b)
+
+    def __isub__(self, o):
+        return self._inplace(o, lambda a, b: a - b)
+
+    def __imul__(self, o):
+        return self._inplace(o, lambda a, b: a * b)
+
+    def __itruediv__(self, o):
+        return self._inplace(o, lambda a, b: a / b)
+
+
+def table(values):
+    a = H.arr(values)
+    return a.view(InPlace) if a.dtype == object else a
+
+
 def table_solver(name, mk, params, n=3):
     """Real solver constructor (ExactSolver.__init__ + setup_solver) with the profile driver of the problem class
     replaced by one that installs an n-node table of symbolic nondimensional values.
@@ -123,9 +152,9 @@ def table_solver(name, mk, params, n=3):
     sname, pname, dname, pattr, fields = SOLVERS[name]
     m = H.mod(RS)
     rk = H.mod(RK)
-    nd = {'x': H.arr([mk('x%d' % i) for i in range(n)])}
+    nd = {'x': table([mk('x%d' % i) for i in range(n)])}
     for f in fields:
-        nd[f] = H.arr([mk('%s%d' % (f, i)) for i in range(n)])
+        nd[f] = table([mk('%s%d' % (f, i)) for i in range(n)])
     probs = []
 
     def driver(self, *a, **k):
@@ -202,7 +231,7 @@ class Shift(Obligation):
             if k == 'position':
                 cx.eq('position returned unchanged', cx['t:position'], cx['xq'])
             else:
-                cx.eq('travelling wave: %s(x,t) == %s(x - M0*a0*t, 0), a0^2 = gamma(gamma-1) Cv Tref of the instance' % (k, k),
+                cx.eq('travelling wave: %s(x,t) == %s(x - M0*a0*t, 0)' % (k, k),
                       cx['t:' + k], cx['0:' + k])
 
 
@@ -235,8 +264,9 @@ class Scales(Obligation):
         out['prob_sound'] = prob.sound
         if self.name != 'ie':
             out.update(c=prob.c, ar=prob.ar, C0=s.C0, P0=s.P0)
-        # the steady profile as returned by the public call at the middle node's position
-        j = 1
+        # the steady profile as returned by the public call at the position of node 0 (an end node: a table that is not
+        # flipped together with the abscissae would show)
+        j = 0
         mid = H.first(H.fields(s(H.arr([-nd['x'][j]]), 0.0)))
         for k, v in mid.items():
             out['mid_' + k] = v
@@ -299,7 +329,7 @@ class Scales(Obligation):
                       scale=sc(cx, u * rho * u * u / 2, u * rho * e, u * p, frad))
         for k, a in mid_names.items():
             if 'mid_' + k in cx:
-                cx.eq('steady profile: %s(-x_node, 0) == node value' % k, cx['mid_' + k], cx['s_' + a][1])
+                cx.eq('steady profile: %s(-x_node, 0) == node value' % k, cx['mid_' + k], cx['s_' + a][0])
 
 
 # ================================================================== flux constancy along the assembled profile
@@ -334,10 +364,12 @@ class SciProxy(object):
         if name == 'momentum_and_energy':
             mk = self._mk
             r, t_ = mk('rho1'), mk('T1')
+            # the contract f(rho1, T1) == 0 is NOT put on the path: the two residual terms are handed to claims(), which
+            # states them as explicit hypotheses of exactly the claims that need them (and as the right-hand sides of
+            # identities).  Claims that do not need the contract are thereby proved for arbitrary (rho1, T1), and the
+            # solver is spared two quintic equations in every witness search.
             res = func([r, t_])
             _RES[:] = list(res)
-            for v in res:
-                ex.assume(T.eq(term_of(v), T.ZERO))
             return H.arr([r, t_])
         return stubs.fsolve_stub(func, x0, args, **kw)
 
@@ -512,6 +544,14 @@ def sc(cx, *vals):
     if cx.symbolic:
         return None
     return [abs(float(v)) for v in vals] + [1e-300]
+
+
+def rt(cx, v):
+    """square root for claims; on floats a non-positive argument (a replay in which the real fsolve ended up on an
+    unphysical root) gives nan instead of an exception that would void the replay of every other claim"""
+    if cx.symbolic:
+        return cx.sqrt(v)
+    return math.sqrt(v) if v > 0 else float('nan')
 
 
 def pos(cx, *vals):
@@ -737,7 +777,7 @@ class Flux(Obligation):
                 cx.eq('upstream temperature == 1 (Tref after scaling)', R0(Tm), 1, when=okP)
             if i == 5:
                 cx.eq('downstream temperature == T1', R5(Tm), T1, when=okP)
-                cx.eq('coded M1 == speed1 / sqrt(T1), speed1 == M0 / rho1', cx['M1'] * cx.sqrt(T1) * rho1, M0)
+                cx.eq('coded M1 == speed1 / sqrt(T1), speed1 == M0 / rho1', cx['M1'] * rt(cx, T1) * rho1, M0)
 
 
 # ================================================================== equilibrium-diffusion profile
@@ -940,7 +980,7 @@ class FluxED(Obligation):
                 cx.eq('jump: total energy flux (equilibrium radiation flux 4/3 u T^4) downstream - upstream == M0 res_en / rho1^2',
                       (R0(eq_flux) - en_up) * rho1 * rho1, M0 * R0(cx['res_en']) if cx.symbolic else 0.0, when=okP,
                       scale=sc(cx, rho1 * rho1 * en_up))
-                cx.eq('coded M1 == speed1 / sqrt(T1), speed1 == M0 / rho1', cx['M1'] * cx.sqrt(T1) * rho1, M0)
+                cx.eq('coded M1 == speed1 / sqrt(T1), speed1 == M0 / rho1', cx['M1'] * rt(cx, T1) * rho1, M0)
                 continue
             cx.eq('total momentum flux (radiation pressure T^4/3) at the %s node == upstream value' % nm,
                   R0(rho * u * u + p + P0 * T4 / 3), mom_up, when=okP, scale=sc(cx, rho * u * u, p, P0 * T4 / 3))
@@ -1076,7 +1116,7 @@ class JumpRad(Obligation):
         cx.eq('mass flux: rho1 * speed1 == M0', rho1 * u1, M0)
         cx.eq('Pr1 == T1^4 / 3', cx['Pr1'] * 3, T1 * T1 * T1 * T1)
         cx.eq('Er1 == T1^4', cx['Er1'], T1 * T1 * T1 * T1)
-        cx.eq('M1 == speed1 / sqrt(T1)', cx['M1'] * cx.sqrt(T1), u1)
+        cx.eq('M1 == speed1 / sqrt(T1)', cx['M1'] * rt(cx, T1), u1)
         cx.eq('(total momentum flux downstream - upstream) * rho1 == momentum residual (contract: == 0)',
               (rho1 * u1 * u1 + p1 + P0 * cx['Pr1'] - mom_up) * rho1, cx['res_mom'], scale=sc(cx, rho1 * mom_up))
         cx.eq('(total energy flux downstream - upstream) * rho1^2 / M0 == energy residual (contract: == 0)',
@@ -1134,10 +1174,13 @@ def obligations(tier):
         obs.append(Shift(name, defaults=True, n=2 if tier == 'quick' else 3))
     obs.append(JumpRad())
     obs.append(JumpIE())
-    obs.append(FluxED())
-    obs.append(FluxSn())
-    for v in ('nED', 'LM_nED', 'FLD_1'):
-        obs.append(Flux(v, exps=True, eps=True))
+    # each flux obligation twice: with the four cross-section exponents (and epsilon) symbolic -- the general statement, the
+    # powers being atoms -- and with the default exponents 0, where the encoding is exact and z3 readily finds witnesses
+    for e in (True, False):
+        obs.append(FluxED(exps=e))
+        obs.append(FluxSn(exps=e))
+        for v in ('nED', 'LM_nED', 'FLD_1'):
+            obs.append(Flux(v, exps=e, eps=e))
     for v in ('FLD_2', 'FLD_poly', 'FLD_LP'):
         obs.append(Flux(v, nodes=(0, 1, 4, 5) if tier == 'quick' else (0, 1, 2, 3, 4, 5)))
     if tier == 'thorough':
